@@ -61,6 +61,7 @@ func runFIFO(t *rapid.T) {
 	}
 	q = dqh.OpenWithHook(dir, max, syncEvery, hook)
 	rolled, bigMsg, reopenPending, reopenAfterRoll := false, false, false, false
+	hugeMsg := false
 	lastPutRolled := false
 	pending := false // a message has been read ahead (model non-empty and the loop had a chance to read)
 
@@ -72,6 +73,11 @@ func runFIFO(t *rapid.T) {
 	t.Repeat(map[string]func(*rapid.T){
 		"put": func(t *rapid.T) {
 			n := dqh.MsgLen(t, max)
+			if rapid.IntRange(0, 59).Draw(t, "huge") == 0 {
+				// sizes in absolute terms too (a line of the relay is at most 64 KiB, the queue itself has no limit)
+				n = rapid.SampledFrom([]int{65535, 65536, 1<<20 - 4, 1 << 20, 1<<20 + 1, 3<<20 + 7}).Draw(t, "hugelen")
+				hugeMsg = true
+			}
 			seq++
 			m := dqh.Msg(seq, n)
 			hs.add("put(%d)", n)
@@ -153,7 +159,7 @@ func runFIFO(t *rapid.T) {
 	nt := reopenPending || reopenAfterRoll || bigMsg
 	rec.Case(strings.Join(hs.ops, " "), nt && len(hs.ops) > 3,
 		fmt.Sprintf("reopen-with-readahead-pending=%v", reopenPending), fmt.Sprintf("reopen-right-after-rollover=%v", reopenAfterRoll),
-		fmt.Sprintf("msg-larger-than-segment=%v", bigMsg), fmt.Sprintf("rolled=%v", rolled))
+		fmt.Sprintf("msg-larger-than-segment=%v", bigMsg), fmt.Sprintf("rolled=%v", rolled), fmt.Sprintf("msg>=64KiB=%v", hugeMsg))
 }
 
 func TestPropFIFO(t *testing.T) { rapid.Check(t, runFIFO) }
